@@ -100,6 +100,24 @@ theorem bundle_no_lost_update {σ} (upd : Nat → σ → σ) (s0 : σ) (progs : 
   flat_no_lost_update upd s0 progs (fun p hp => callSequence_flat p (h p hp))
     (fun p hp => callSequence_rbw p (h p hp)) sched
 
+/-- the same per CALL: a goroutine that makes several modifying calls applies a different function
+each time — its `k`-th write stores `updc i k` of its snapshot.  Under every schedule the list (first
+component; the second is the ghost count of writes per goroutine) is the write log applied in order
+with each goroutine's writes numbered 0, 1, 2, …, and the count is the number of its writes -/
+theorem bundle_no_lost_update_per_call {σ} (updc : Nat → Nat → σ → σ) (s0 : σ) (progs : List (List Ev))
+    (h : ∀ p ∈ progs, IsCallSequence p) (sched : List Nat) :
+    (drun (perCall updc) (init progs, ginit (s0, fun _ => 0)) sched).2.shared
+      = applyLog updc s0 (drun (perCall updc) (init progs, ginit (s0, fun _ => 0)) sched).2.log ∧
+    ∀ i, (applyLog updc s0 (drun (perCall updc) (init progs, ginit (s0, fun _ => 0)) sched).2.log).2 i
+      = (drun (perCall updc) (init progs, ginit (s0, fun _ => 0)) sched).2.log.count i :=
+  ⟨flat_no_lost_update_per_call updc s0 progs (fun p hp => callSequence_flat p (h p hp))
+    (fun p hp => callSequence_rbw p (h p hp)) sched, fun i => applyLog_count updc s0 _ i⟩
+
+/-- non-vacuity: goroutine 0 adds a token, then (its second call) removes the first element; goroutine 1
+adds a token in between -/
+example : (applyLog (fun i k (s : List Nat) => if i = 0 ∧ k = 1 then s.drop 1 else s ++ [10 * i + k]) [] [0, 1, 0]).1
+    = [10] := by decide
+
 /-- tokens added concurrently are all present afterwards -/
 theorem bundle_added_tokens_all_present {τ} (x : Nat → List τ) (s0 : List τ) (progs : List (List Ev))
     (h : ∀ p ∈ progs, IsCallSequence p) (sched : List Nat) :
@@ -107,6 +125,41 @@ theorem bundle_added_tokens_all_present {τ} (x : Nat → List τ) (s0 : List τ
       = s0 ++ ((drun (fun i s => s ++ x i) (init progs, ginit s0) sched).2.log.map x).flatten :=
   flat_appends_all_present x s0 progs (fun p hp => callSequence_flat p (h p hp))
     (fun p hp => callSequence_rbw p (h p hp)) sched
+
+/-- readers see either the old or the new token list, never a mix: under every schedule, what any
+goroutine has read (its snapshot) is the initial list with the first `k` modifications of the write
+log applied — each one whole, in the order written —, and a snapshot taken inside the section the
+goroutine is still in is the CURRENT list -/
+theorem bundle_reads_see_prefix {σ} (upd : Nat → σ → σ) (s0 : σ) (progs : List (List Ev))
+    (h : ∀ p ∈ progs, IsCallSequence p) (sched : List Nat) (i : Nat) :
+    let g := (drun upd (init progs, ginit s0) sched).2
+    (∃ k, k ≤ g.log.length ∧ g.snap i = (g.log.take k).foldl (fun s j => upd j s) s0) ∧
+    (∀ t, (run (init progs) sched).threads[i]? = some t → g.fresh i = true → g.snap i = g.shared) :=
+  flat_reads_see_prefix upd s0 progs (fun p hp => callSequence_flat p (h p hp))
+    (fun p hp => callSequence_rbw p (h p hp)) sched i
+
+/-- every call returns under ANY scheduler (not just on some schedule): for goroutines running
+arbitrary call sequences and every schedule, (1) at most `Σ (2·|p| + 1)` steps of the schedule move
+a goroutine at all (every other step is a blocked or finished goroutine being picked), (2) while some
+goroutine is unfinished some goroutine can move, (3) so when none can move all calls have returned.
+A scheduler that picks an enabled goroutine whenever there is one completes every call after at
+most that many picks. -/
+theorem bundle_every_maximal_run_finishes (progs : List (List Ev)) (h : ∀ p ∈ progs, IsCallSequence p)
+    (sched : List Nat) :
+    effSteps (init progs) sched ≤ (progs.map fun p => 2 * p.length + 1).sum ∧
+    (finished (run (init progs) sched) = false →
+      ∃ i, i < (run (init progs) sched).threads.length ∧ enabled (run (init progs) sched) i = true) ∧
+    ((∀ i, enabled (run (init progs) sched) i = false) → finished (run (init progs) sched) = true) :=
+  flat_every_maximal_run_finishes progs (fun p hp => callSequence_flat p (h p hp)) sched
+
+/-- non-vacuity: a reader's snapshot between two writers is the list after the first write only
+(prefix of length 1 of the log `[0, 2]`), and a schedule that picks blocked goroutines makes fewer
+effective steps than it has entries -/
+example : let d := drun (fun i s => s ++ [i]) (init [[.lock, .read, .write, .unlock], [.rlock, .read, .runlock],
+      [.lock, .read, .write, .unlock]], ginit ([] : List Nat)) [0, 0, 0, 0, 0, 1, 1, 1, 2, 2, 2, 2, 2]
+    d.2.snap 1 = [0] ∧ d.2.log = [0, 2] ∧ d.2.shared = [0, 2] := by decide
+example : effSteps (init [[.lock, .unlock], [.rlock, .runlock]]) [0, 0, 1, 1, 1, 0, 1, 1] = 5 ∧
+    finished (run (init [[.lock, .unlock], [.rlock, .runlock]]) [0, 0, 1, 1, 1, 0, 1, 1]) = true := by decide
 
 /-- why the second obligation matters: a check-then-act writer (read under the read lock, write
 later under the write lock) loses the other goroutine's token -/
@@ -121,6 +174,14 @@ theorem check_then_act_loses_an_update :
 /-- non-vacuity: two goroutines adding tokens while a third filters, one concrete schedule -/
 example : (drun (fun i s => s ++ [i]) (init [[.lock, .read, .write, .unlock], [.lock, .read, .write, .unlock]], ginit ([] : List Nat))
       [0, 1, 0, 0, 0, 0, 1, 1, 1, 1]).2.shared = [0, 1] := by decide
+
+/-- every critical section of an entry point that calls user code (a filter, a callback, a verifier,
+a discharger: code that may panic) is released by a DEFERRED unlock, so a panic that the caller
+recovers from leaves the lock free and later calls return - the third obligation over the
+regenerated facts. (The lock model itself has no panics: there a callout always returns; this fact
+is what makes that idealisation harmless. Exercised by `panickingCallbackRun` of family conc.) -/
+theorem bundle_callouts_under_deferred_unlock :
+    ∀ p ∈ bundleCalloutsUnderDeferredUnlock, p.2 = true := by decide
 
 /-- why flatness matters: a reader that re-acquires the read lock deadlocks with a writer that
 arrives in between (the schedule the search step hands to the stress runner) -/
@@ -141,9 +202,13 @@ end Macaroon.Props.C15
 #print axioms Macaroon.Props.C15.bundle_race_free
 #print axioms Macaroon.Props.C15.bundle_all_return
 #print axioms Macaroon.Props.C15.nested_rlock_deadlocks
+#print axioms Macaroon.Props.C15.bundle_callouts_under_deferred_unlock
 #print axioms Macaroon.Props.C15.bundle_entry_points_read_before_write
 #print axioms Macaroon.Props.C15.callSequence_rbw
 #print axioms Macaroon.Props.C15.bundle_sections_exclusive
 #print axioms Macaroon.Props.C15.bundle_no_lost_update
 #print axioms Macaroon.Props.C15.bundle_added_tokens_all_present
 #print axioms Macaroon.Props.C15.check_then_act_loses_an_update
+#print axioms Macaroon.Props.C15.bundle_reads_see_prefix
+#print axioms Macaroon.Props.C15.bundle_every_maximal_run_finishes
+#print axioms Macaroon.Props.C15.bundle_no_lost_update_per_call
